@@ -25,6 +25,7 @@ mutual
     | date (d : Int) : Same (.date d) (.date d)
     | tdelta (d : Int) : Same (.tdelta d) (.tdelta d)
     | cdelta (d : Int) : Same (.cdelta d) (.cdelta d)
+    | fdt (d : Int) : Same (.fdt d) (.fdt d)
     | nat : Same .nat .nat
     | list {xs ys : List EVal} : SameL xs ys → Same (.list xs) (.list ys)
     | tuple {xs ys : List EVal} : SameL xs ys → Same (.tuple xs) (.tuple ys)
@@ -141,6 +142,11 @@ theorem eq_iff_same_aux : ∀ (n : Nat) (a b : EVal), sizeOf a ≤ n → a.keysO
       case cdelta y =>
         simp only [eq, EVal.norm, eqN, beq_iff_eq]
         exact ⟨fun e => e ▸ Same.cdelta x, fun hc => by cases hc; rfl⟩
+    | fdt x =>
+      cases b <;> try (simp [eq, EVal.norm, eqN]; intro hc; cases hc; done)
+      case fdt y =>
+        simp only [eq, EVal.norm, eqN, beq_iff_eq]
+        exact ⟨fun e => e ▸ Same.fdt x, fun hc => by cases hc; rfl⟩
     | nat =>
       cases b <;> try (simp [eq, EVal.norm, eqN]; intro hc; cases hc; done)
       case nat => simp only [eq, EVal.norm, eqN]; exact ⟨fun _ => Same.nat, fun _ => trivial⟩
